@@ -44,7 +44,7 @@ def main(tier: str) -> int:
     ops, ctx = [], []
     seed = chk.seed + 21
 
-    label_sets = [("b", "a"), (7, -3), ("zz", "m", "a"), (10, 2, 300)]
+    label_sets = [("b", "yes"), (7, -3), ("zz", "m", "a"), (10, 2, 300)]
     wopts = [O.SHADE, O.SHAGA, O.jDE, O.DifferentialEvolution, O.GeneticAlgorithm, O.SelfCGA]
     configs = []
     for fs in (("add", "mul", "sub"), ("cos", "sin", "add", "sub", "mul", "div"), ("add", "div", "exp", "abs")):
@@ -76,13 +76,16 @@ def main(tier: str) -> int:
             configs.append(("GPNNRegressor", lambda wo=wo, opt=opt, oa=oa, wa=wa: GeneticProgrammingNeuralNetRegressor(n_iter=2, pop_size=4, optimizer=opt, optimizer_args=dict(oa), weights_optimizer=wo, weights_optimizer_args=dict(wa), random_state=seed), "reg", None))
             configs.append(("GPNNClassifier", lambda wo=wo, opt=opt, oa=oa, wa=wa: GeneticProgrammingNeuralNetClassifier(n_iter=2, pop_size=4, optimizer=opt, optimizer_args=dict(oa), weights_optimizer=wo, weights_optimizer_args=dict(wa), random_state=seed), "clf", 3))
 
+    turn = {}
     for ci, (name, make, kind, nlab) in enumerate(configs):
         d_feat = 2 + ci % 2
         if kind == "reg":
             X, y = E.data_regression(n=16, d=d_feat, seed=seed + ci)
             labels = None
         else:
-            labels = [ls for ls in label_sets if len(ls) == (2 if nlab == 2 else 3)][ci % 2]
+            # every classifier class sees every label set of its size (strings of different lengths as well as numbers)
+            turn[name] = turn.get(name, -1) + 1
+            labels = [ls for ls in label_sets if len(ls) == (2 if nlab == 2 else 3)][turn[name] % 2]
             X, y = E.data_classification(n=21, d=d_feat, labels=labels, seed=seed + ci)
         X0, y0 = X.copy(), y.copy()
         est = make()
